@@ -438,6 +438,31 @@ def r18(ctx):
                where=f"{b4.file}:{ln}")
 
 
+    # the staged commitment is *consumed* by the advance: once next_holder_commit_num has moved, next_holder_commit_info no
+    # longer holds the info that licensed the move (else it licenses the next revoke too, without a new validation)
+    for bb, fvv, sinks in ((b, fv, [(bi, ln) for bi, ln, c in adv]), (b4, fv4, [(bi, ln) for bi, ln, c in sets])):
+        clear = set()
+        for cbi, cc in bb.calls():
+            nm = cc.callee.name if cc.callee else ""
+            if nm.endswith("Option::<T>::take") and cc.args and \
+               R.mentions_field(fvv.expr(cc.args[0]), "EnforcementState", "next_holder_commit_info"):
+                clear.add(cbi)
+        for bi_ in fvv.live_blocks():
+            for st in bb.stmts(bi_):
+                if st.kind == "a" and any(isinstance(pr, tuple) and pr[0] == "f" and pr[2] == "next_holder_commit_info"
+                                          for pr in st.place.proj) and "None" in repr(st.rv):
+                    clear.add(bi_)
+        oks = [r for r in fvv.return_sites() if r["kind"] == "ok"]
+        for sbi, sln in sinks:
+            before = sbi not in fvv.reach(0, cut_nodes=clear) if clear else False
+            after = bool(clear) and not any(r["block"] in fvv.reach(sbi, cut_nodes=clear) for r in oks)
+            ctx.ob("R1.8", before or after, f"{bb.name}/advance/consumes-staged-info",
+                   f"`{bb.name}` advances next_holder_commit_num (line {sln}) on a path that leaves next_holder_commit_info in "
+                   "place (not taken before, not cleared before the Ok return): the stale entry licenses the next revoke "
+                   "without a newly validated, counter-signed commitment, and the secret of the current commitment is disclosed",
+                   where=f"{bb.file}:{sln}", sample="take() before the advance")
+
+
 # ---------------------------------------------------------------------------- R1.9
 def r19(ctx):
     ctx.rule("R1.9", "handler layer: DisclosedSecret replies are built only from the return values of "
